@@ -19,6 +19,13 @@ CHECKS["C15"] = dict(
   note="Trusts math/big. Mixed integer/decimal comparison, FromFloat and non-decimal literals are outside the claim; a literal whose excess fraction digits are all zero may be accepted or rejected.",
   design="DESIGN.md section 4, C15")
 
+CHECKS["C14"] = dict(
+  category="exploration",
+  technique="exhaustive small-scope enumeration of member sequences + rapid random sequences against an RFC 7950 numbering fold (reference model), via the Go API and via module text",
+  text="All member sequences up to length 3 (quick) / 4 (thorough) over a 15-value boundary grid and all duplicate-name patterns are pushed through NewEnumType/NewBitfield Set/SetNext and through module text + Process, and compared with a big-integer fold of RFC 7950 9.6.4.2/9.7.4.2 (assignment, acceptance, rejection at the right member, inverse and sorted views). Numbering state is (highest so far, used names, used values), which short sequences over boundary values cover; longer sequences are sampled by rapid.",
+  note="Trusts the harness fold. A bits type repeating a position may be accepted or rejected (property lists value uniqueness for enums only).",
+  design="DESIGN.md section 4, C14")
+
 PENDING = {}
 
 def main():
